@@ -66,7 +66,7 @@ CHECKS = {
         'level': ('Decides the structural necessary conditions only: the comparison cannot abort (violated on the pinned tree; repaired '
                   'by fix 53e0ac2), its loops make progress, it walks characters rather than bytes, list masks are normalised before store/announce/compare with the three '
                   'documented completions, and every call site passes (mask, text). That the function implements glob semantics for '
-                  'every pair of strings is NOT decided by this technique.'),
+                  'every pair of strings is NOT decided by this technique. No test of the characters of a mask other than has-a-wildcard guards a match_wildcard call.'),
         'note': TRUST + ' Glob semantics over all strings is a runtime-value property (declined, see DESIGN.md C14).',
     },
     'C19': {
@@ -83,7 +83,7 @@ CHECKS = {
         'level': ('Decides that channels are created only by JOIN and configuration loading and deleted only by '
                   'remove_user_from_channel (through which every departure goes, and which deletes exactly when the channel became empty and is not preconfigured), that a JOIN decided as creation always creates (C07 R7.1, with membership tests re-made inside the applying loop treated as loop-carried facts), that the stored modes of a configured channel are the value whose rank lists were moved out, that a user-created channel is exactly {creator as founder+operator, no topic, default '
                   'modes, empty lists, not preconfigured}, that configured channels carry topic/modes from their entry with '
-                  'preconfigured=true (only there) and that configured ranks are granted on join.'),
+                  'preconfigured=true (only there) and that configured ranks are granted on join. process_join stores the constructed channel unedited and writes no channel attribute.'),
         'note': TRUST + ' The creation condition is decided in C07 R7.1; TOML deserialisation is trusted.',
     },
     'C15': {
@@ -91,7 +91,7 @@ CHECKS = {
         'level': ('Decides that an accepted NICK re-keys every nick-keyed live container (a container added later without a re-key is '
                   'reported), moves the same User value unchanged apart from its source string, records WHOWAS, renames in every own '
                   'channel with the rank record, announces the original message from the old source to all users, touches no counter, '
-                  'and that a taken nick yields 433 and no effect.'),
+                  'and that a taken nick yields 433 and no effect. The WHOWAS helper only appends; the nick applied is the one the relayed NICK message names (C13 R13.14).'),
         'note': TRUST + ' NICK syntax validation is decided in C13.',
     },
     'C04': {
@@ -116,7 +116,7 @@ CHECKS = {
                   'a "nick free" check made under the same write guard, that every handler mutates only users[own nick] (frozen '
                   'foreign-target table for INVITE/KILL/DIE), that the connection\'s nick setter stores its argument verbatim, and that no '
                   'connection acts on a nick it never registered (the three such places of the pinned tree - 433 path, teardown, dns arm '
-                  'of the dns_lookup build - are repaired by fixes f454dd9, 05cb942, bb5c615).'),
+                  'of the dns_lookup build - are repaired by fixes f454dd9, 05cb942, bb5c615). The handlers run only behind the registration gate (imports C03 R3.1).'),
         'note': TRUST + '',
     },
     'C12': {
@@ -141,7 +141,7 @@ CHECKS = {
                   'its letter, applies only to members (rank letters), is tied to its own field and sign, is appended to the '
                   'announcement with its stored parameter, that the announcement reaches all members, that missing privilege '
                   'yields 482 / non-member 442, that a parameter is consumed exactly where the validator counted one unless the actor '
-                  'holds no privilege at all (no shifted parameters), and that each written field is read by the enforcing handler and the MODE query.'),
+                  'holds no privilege at all (no shifted parameters), and that each written field is read by the enforcing handler and the MODE query. Also: a later MODE query shows each parametrised letter with its own parameter (letters and parameters in the same order, R8.10).'),
         'note': TRUST + ' Enforcement semantics of each field are decided in C07/C09/C10/C12.',
     },
     'C09': {
@@ -149,7 +149,7 @@ CHECKS = {
         'level': ('Decides that KICK selects exactly the victims the rank rules allow and removes/announces exactly those, that '
                   'TOPIC is written/cleared/announced iff member and (not +t or half-op+), that INVITE records and notifies '
                   'exactly the invitee under the stated condition, each refusal numeric under exactly its condition, and that '
-                  'the rank predicates implement the lattice. The two KICK robustness defects of the pinned tree are repaired (fixes 5b4a0cc, 8b18274).'),
+                  'the rank predicates implement the lattice. The two KICK robustness defects of the pinned tree are repaired (fixes 5b4a0cc, 8b18274). The topic record holds the given text and setter verbatim (constructor fidelity); the invitation is used up exactly on the paths that enter the user into the channel (relative rule).'),
         'note': TRUST + ' "Grants one admission": the life cycle of the recorded invitation (used up by the admitted JOIN and by no refused one) is imported from C07 R7.3/R7.4.',
     },
     'C01': {
@@ -173,7 +173,7 @@ CHECKS = {
                   'connection, that `authenticated` is written only in authenticate() and only with a value that '
                   'implies CAP ended + NICK + USER + mask match + the required password verified (user password '
                   'before server password), that a wrong/missing password reaches 464 and the quit flag and never '
-                  'add_user, that a registration attempt losing its nick does not stay marked registered, and that pre-registration handlers do not touch shared state.'),
+                  'add_user, that a registration attempt losing its nick does not stay marked registered, and that pre-registration handlers do not touch shared state. The password checked is the PASS parameter as sent (imports C13 R13.13/R13.14 and C20 R20.11).'),
         'note': TRUST + ' Assumes argon2 verification is correct. Not decided: TLS/DNS effects on the source string.',
     },
     'C07': {
